@@ -19,7 +19,14 @@ import (
 )
 
 // Versions of the lock packages of part 4 (slot 0 is the revision itself).
-var slotVersion = []string{"v1.0.0", "v1.0.0", "v1.1.0", digestA}
+var slotVersion = slotLayouts[0]
+
+// slotLayouts: which lock package is installed by digest. In the second
+// layout the digest-installed package is the revision's first dependency.
+var slotLayouts = [][]string{
+	{"v1.0.0", "v1.0.0", "v1.1.0", digestA},
+	{"v1.0.0", digestA, "v1.0.0", "v1.1.0"},
+}
 
 // Constraints the revision may put on a direct dependency: satisfied by
 // v1.0.0 and v1.1.0; only by v1.1.0; the digest of slot 3; another digest;
@@ -31,6 +38,9 @@ var directConstraints = []string{">=v1.0.0", ">=v1.1.0", digestA, digestB, "not-
 func resolveBody(r *explore.Run, rep *report.R, sc string, n int, fixed []int, nCons int) {
 	vmap.Order = nil
 	g := chooseRows(r, n, fixed...) // slot 0: the revision's own dependencies (always "present")
+	layout := r.Free(len(slotLayouts), "installed-versions-layout")
+	slotVersion = slotLayouts[layout]
+	defer func() { slotVersion = slotLayouts[0] }()
 	selfInLock := r.Free(2, "self-in-lock(yes,no)") == 0
 	cons := map[int]string{}
 	var direct []int
@@ -194,7 +204,7 @@ func resolveBody(r *explore.Run, rep *report.R, sc string, n int, fixed []int, n
 
 	nt := ""
 	if len(direct) > 0 {
-		nt = report.Hash("resolve", g.String(), selfInLock, fmt.Sprint(cons))
+		nt = report.Hash("resolve", g.String(), selfInLock, fmt.Sprint(cons), layout)
 	}
 	evalCase(rep, sc, report.Hash("resolve", found, installed, invalid, err != nil), nt)
 	if nt != "" && g.edges() >= 3 && invalid > 0 && wantSample(rep, "resolve") {
